@@ -245,7 +245,8 @@ def main():
     shutil.rmtree(outdir, ignore_errors=True)
     os.makedirs(outdir, exist_ok=True)
     kf = [k for k in known_findings() if k.get("property") == pid]
-    known_open = [k["key"] for k in kf if k.get("status") == "open"]
+    # region keys of every open finding (a harness shared between properties excludes the same region everywhere)
+    known_open = [k["key"] for k in known_findings() if k.get("status") == "open"]
 
     # group harness runs: one engine process per (pkg, tags, group)
     jobs = []
